@@ -1,26 +1,11 @@
-// T-str: the trusted string layer. Strings are viewed as Seq<char> (vstd's view of str).
+broadcast use {vstd::std_specs::hash::group_hash_axioms, tstr::group_tstr};
+
+// T-str: the trusted string layer (uninterpreted functions and axioms are in prelude/tstr_mod.rs). Strings are viewed as Seq<char> (vstd's view of str).
 // The functions below are *uninterpreted* unless a definition is short; what std really does
 // (Unicode White_Space classification in trim, the exact line splitting of `lines`) is therefore
 // a parameter of every proof, not an assumption about the property.
 
-/// `str::trim`: the input without leading and trailing Unicode whitespace.
-pub uninterp spec fn trim_spec(s: Seq<char>) -> Seq<char>;
-/// number of *bytes* `str::trim` removes at the front (needed for column arithmetic)
-pub uninterp spec fn trim_lead(s: Seq<char>) -> nat;
-/// UTF-8 length in bytes of a string view
-pub uninterp spec fn blen(s: Seq<char>) -> nat;
-/// `str::lines`: split at '\n', one trailing '\r' removed per line, no final empty line.
-pub uninterp spec fn lines_of(s: Seq<char>) -> Seq<Seq<char>>;
-/// std doc: "An empty string returns an empty iterator" (and `"".lines().count() == 0`).
-pub broadcast axiom fn axiom_lines_of_empty(s: Seq<char>)
-    requires s.len() == 0
-    ensures (#[trigger] lines_of(s)).len() == 0;
-
 pub open spec fn is_blank(s: Seq<char>) -> bool { trim_spec(s).len() == 0 }
-
-/// byte offset of sub-slice `a` inside `b` when `a` was obtained from `b` by trimming/slicing
-/// (pointer arithmetic is outside Verus; rule E9)
-pub uninterp spec fn str_offset_in(a: &str, b: &str) -> nat;
 
 pub assume_specification<'a>[ str::trim ](s: &'a str) -> (r: &'a str)
     ensures
@@ -29,10 +14,6 @@ pub assume_specification<'a>[ str::trim ](s: &'a str) -> (r: &'a str)
         trim_lead(s@) + blen(r@) <= blen(s@),
 ;
 
-// Neighbouring std functions get their *own* uninterpreted meaning, so that code which calls one
-// of them where the property needs `trim` does not verify by accident.
-pub uninterp spec fn trim_start_spec(s: Seq<char>) -> Seq<char>;
-pub uninterp spec fn trim_end_spec(s: Seq<char>) -> Seq<char>;
 pub assume_specification<'a>[ str::trim_start ](s: &'a str) -> (r: &'a str)
     ensures r@ == trim_start_spec(s@), str_offset_in(r, s) == trim_lead(s@), trim_lead(s@) + blen(r@) <= blen(s@);
 pub assume_specification<'a>[ str::trim_end ](s: &'a str) -> (r: &'a str)
@@ -101,11 +82,6 @@ pub fn verif_strip_prefix_char<'a>(s: &'a str, p: char) -> (r: Option<&'a str>)
 { s.strip_prefix(p) }
 
 // ---- parsing numbers ----
-/// `str::parse::<usize>()` succeeds exactly on an optional '+' followed by one or more ASCII
-/// digits whose value fits usize (std doc of `usize::from_str`). Kept uninterpreted: the proofs
-/// only need that the result is a function of the text.
-pub uninterp spec fn parse_usize_spec(s: Seq<char>) -> Option<usize>;
-
 #[verifier::external_type_specification]
 #[verifier::external_body]
 pub struct ExParseIntError(core::num::ParseIntError);
@@ -117,11 +93,36 @@ pub fn verif_parse_usize(s: &str) -> (r: Result<usize, core::num::ParseIntError>
         (r is Err ==> parse_usize_spec(s@) is None),
 { s.parse::<usize>() }
 
-// ---- &str as a hash key (T-std) -----------------------------------------------------------------
-// `str`'s Hash/Eq implementations are functions of the contents, so &str obeys the key model and
-// two &str values with equal contents are the same key.
-pub broadcast axiom fn axiom_str_key_model()
-    ensures #[trigger] vstd::std_specs::hash::obeys_key_model::<&str>();
 
-pub broadcast axiom fn axiom_str_view_injective(a: &str, b: &str)
-    ensures (#[trigger] a@ == #[trigger] b@) ==> a == b;
+// ---- generic string comparison shims (rule E17) -------------------------------------------------
+// `X == "lit"` / `X != "lit"` on String / &str / &String are accepted by Verus but unspecified.
+pub trait VerifStr {
+    spec fn sv(&self) -> Seq<char>;
+    fn as_s(&self) -> (r: &str)
+        ensures r@ == self.sv();
+}
+
+impl VerifStr for String {
+    open spec fn sv(&self) -> Seq<char> { self@ }
+    fn as_s(&self) -> (r: &str) { self.as_str() }
+}
+
+impl<'a> VerifStr for &'a str {
+    open spec fn sv(&self) -> Seq<char> { (*self)@ }
+    fn as_s(&self) -> (r: &str) { *self }
+}
+
+impl<'a> VerifStr for &'a String {
+    open spec fn sv(&self) -> Seq<char> { (*self)@ }
+    fn as_s(&self) -> (r: &str) { self.as_str() }
+}
+
+#[verifier::external_body]
+pub fn verif_str_eq<A: VerifStr>(a: &A, b: &str) -> (r: bool)
+    ensures r == (a.sv() == b@)
+{ a.as_s() == b }
+
+#[verifier::external_body]
+pub fn verif_str_ne<A: VerifStr>(a: &A, b: &str) -> (r: bool)
+    ensures r == (a.sv() != b@)
+{ a.as_s() != b }
